@@ -29,6 +29,7 @@ type Result struct {
 	Trusted   []string `json:"-"`
 	Kind      string   `json:"kind"`
 	Vacuity   bool     `json:"vacuity,omitempty"`
+	Bounded   bool     `json:"bounded,omitempty"`
 	Location  string   `json:"contract"`
 }
 
@@ -61,6 +62,10 @@ func RunHarness(p *Program, h *Harness, cfg runCfg) (res *Result) {
 	x.h = h
 	if h.Item.Options["frame"] == "off" {
 		x.frameOff = true
+	}
+	if h.Item.Options["unroll"] != "" {
+		x.unroll = true
+		res.Bounded = true
 	}
 	st := NewState()
 	args := make([]*Term, len(h.Fn.Params))
